@@ -9,6 +9,7 @@ import Ctrmml.Model.MdsConv
 import Ctrmml.Spec.Timeline
 import Ctrmml.Proofs.CodecBreak
 import Ctrmml.Proofs.CodecTrack
+import Ctrmml.Proofs.CodecCall
 namespace Ctrmml.C02
 open Ctrmml Ctrmml.Mds Ctrmml.Seq Tables
 
@@ -161,6 +162,32 @@ theorem C02_codec_roundtrip_track (nS nM : Nat) (ta tb : List Node) (ha : linL t
   refine ⟨eA, eB, hA, hB, fun hlen => ⟨(h hlen).1, fun base mj maxTicks ln lr hmax => ?_⟩⟩
   exact ((h hlen).2 base mj ln lr).run_eq maxTicks hmax
 
+/-- **A compiled stream at any offset of a chunk** (building block for whole chunks; `Codec.Reach`
+= zero or more `Seq.step`s, `Codec.Frame` = loop stack, call stack, drum flag and jump count
+unchanged): entered at its first byte with ANY call stack, loop stack and register contents, the
+stream of a bracket structure plays its expansion and arrives at its `FINISH` with the stacks as
+on entry.  (The bytes do not depend on the offset: prefix independence of the encoder.) -/
+theorem C02_stream_at_offset_partial (nS nM : Nat) (ts : List Node) (hl : linL ts = true) :
+    ∃ e', encL nS nM ts {} = .ok e' ∧
+      ∀ (pre : List Nat) (seq : List Nat) (base mj : Nat) (s : St),
+        pre ++ e'.out ++ [mds_FINISH] <+: seq → s.pc = pre.length → s.drum = false →
+        ∃ s1, Reach seq base mj s s1 ∧ Frame s s1 ∧ s1.pc = pre.length + e'.out.length ∧
+          seq[s1.pc]? = some mds_FINISH ∧ s1.out = (expL nS nM ts).reverse ++ s.out :=
+  stream_at nS nM ts hl
+
+/-- **The call / return join point.**  From related encoder / interpreter states (`Codec.Good`: the
+encoder's remembered lengths, where it relies on them, equal the interpreter's registers), a
+`PAT k` whose pointer-table slot leads to a stream that plays `T` and arrives at its `FINISH`
+(`Codec.SubPlays`, e.g. by `C02_stream_at_offset_partial`) makes the interpreter play `T` and
+return behind the call in a state related to the encoder state after `PAT` — the interpreter's
+registers are unknown there, and the encoder has forgotten both. -/
+theorem C02_call_return_partial {seq : List Nat} {base mj : Nat} {e : Enc} {s : St} {O : List Tk}
+    (g : Good e s O) (arg : Nat) (hp : (afterPAT e arg).out <+: seq) {t : Nat}
+    (ht : slotTarget seq base (arg % 256) = some t) {T : List Tk} (hsub : SubPlays seq base mj t T) :
+    encEv 0 0 e ⟨mds_PAT, arg⟩ = .ok (afterPAT e arg) ∧
+    ∃ s', Reach seq base mj s s' ∧ Frame s s' ∧ Good (afterPAT e arg) s' (T.reverse ++ O) :=
+  ⟨encEv_pat 0 0 e arg, pat_good g arg hp ht hsub⟩
+
 /-! ### non-vacuity -/
 
 /-- the D4 shape `note, note (same length), SEGNO, rest, note, JUMP` -/
@@ -201,6 +228,26 @@ example : ((encL 0 0 exBreak {}).map (·.out)).toOption =
     some [0xa6, 0x17, 0xfa, 0xa6, 0x17, 0xa6, 0xfc, 0x0b, 0x2f, 0xfa, 0xa8, 0x0b, 0xfc, 0x03, 0x0b, 0xfb, 2, 0xfb, 3] := by
   decide +kernel
 example : (expL 0 0 exBreak).length = 24 + 2 * (48 + 48 + (12 + 12 + 12)) + 48 := by decide +kernel
+
+/-- the hypotheses of `C02_call_return_partial` are satisfiable: a chunk fragment with the caller
+`fe 00 ff` at 0, the pointer table at 3 (slot 0 → offset 2 from the table) and the callee `a6 17 ff` at 5 -/
+example : ∃ (seq : List Nat) (t : Nat) (T : List Tk) (s' : St),
+    slotTarget seq 3 (0 % 256) = some t ∧ SubPlays seq 3 0 t T ∧ T = ticks 0 0 [⟨0xa6, 24⟩] ∧
+    Reach seq 3 0 { pc := 0 } s' ∧ s'.pc = 2 ∧ s'.out = T.reverse := by
+  obtain ⟨e', he', h⟩ := stream_at_subPlays 0 0 [.ev ⟨0xa6, 24⟩] (by decide)
+  have hc : encL 0 0 [.ev ⟨0xa6, 24⟩] {} = .ok { out := [0xa6, 0x17], lastNote := 0x17, lastType := 0xa6 } := rfl
+  rw [hc] at he'; injection he' with he'; subst he'
+  have hsub := h [0xfe, 0x00, 0xff, 0x00, 0x02] [0xfe, 0x00, 0xff, 0x00, 0x02, 0xa6, 0x17, 0xff] 3 0
+    (List.prefix_refl _)
+  obtain ⟨_, s', r, _, g⟩ := C02_call_return_partial (seq := [0xfe, 0x00, 0xff, 0x00, 0x02, 0xa6, 0x17, 0xff])
+    (base := 3) (mj := 0) (good_init none none) 0 (by decide) (t := 5) (by decide) hsub
+  refine ⟨_, 5, _, s', by decide, hsub, by simp [ticks, expL, Node.exp], r, ?_, ?_⟩
+  · rcases g.mode with ⟨_, hpc, _⟩ | ⟨hn, _⟩
+    · exact hpc
+    · simp [afterPAT, needLenB, noteish, mds_PAT, mds_SLR] at hn
+  · rcases g.mode with ⟨_, _, ho⟩ | ⟨hn, _⟩
+    · simpa using ho
+    · simp [afterPAT, needLenB, noteish, mds_PAT, mds_SLR] at hn
 
 /-- a looping track with a loop (with break) after the loop point: `c c L [ c / r ]2` -/
 def exTrackA : List Node := [.ev ⟨0xa6, 24⟩, .ev ⟨0xa6, 24⟩]
